@@ -7,7 +7,8 @@ CONSTANTS
   Version = 21
   Deviations = {}
   MaxLevel = 5
-  Acts = {"Populate", "AddHole", "AddDepthData", "AddIntervalData", "SetValues", "Rename", "RemoveDataViaParent", "RemoveDataViaWorkspace", "RemoveHoleViaParent", "RemoveHoleViaWorkspace", "RemovePropertyGroup", "AddValuesToTable", "Reopen", "CopyGroup"}
+  Acts = {"Populate", "AddHole", "AddDepthData", "AddIntervalData", "SetValues", "Rename", "RemoveDataViaParent", "RemoveDataViaWorkspace", "RemoveHoleViaParent", "RemoveHoleViaWorkspace", "RemovePropertyGroup", "AddValuesToTable", "Reopen", "CopyGroup", "Protect"}
+  Kind = "float"
 VIEW vw
 INVARIANT AllTiled
 INVARIANT NoDuplicateOwner
@@ -21,4 +22,5 @@ INVARIANT NeverBroken
 INVARIANT GroupChildrenLive
 INVARIANT PgCacheFresh
 PROPERTY Isolation
+PROPERTY ProtectedStay
 CHECK_DEADLOCK FALSE
